@@ -261,6 +261,16 @@ fn header(l: std::alloc::Layout) -> (usize, std::alloc::Layout) {
 }
 unsafe impl std::alloc::GlobalAlloc for Fill {
     unsafe fn alloc(&self, l: std::alloc::Layout) -> *mut u8 {
+        if cfg!(miri) {
+            // Miri tracks frees and leaks itself; reaching the header through the pointer the caller
+            // hands back is outside what its borrow model allows
+            let p = std::alloc::System.alloc(l);
+            if !p.is_null() {
+                std::ptr::write_bytes(p, 0x55, l.size());
+                LIVE.fetch_add(l.size() as isize, std::sync::atomic::Ordering::Relaxed);
+            }
+            return p;
+        }
         let (h, big) = header(l);
         let p = std::alloc::System.alloc(big);
         if p.is_null() {
@@ -272,6 +282,10 @@ unsafe impl std::alloc::GlobalAlloc for Fill {
         p.add(h)
     }
     unsafe fn dealloc(&self, p: *mut u8, l: std::alloc::Layout) {
+        if cfg!(miri) {
+            LIVE.fetch_sub(l.size() as isize, std::sync::atomic::Ordering::Relaxed);
+            return std::alloc::System.dealloc(p, l);
+        }
         let (h, big) = header(l);
         let base = p.sub(h);
         LIVE.fetch_sub(l.size() as isize, std::sync::atomic::Ordering::Relaxed);
